@@ -191,9 +191,17 @@ func (p *c05) Run(i int) (res fw.Result) {
 			}
 			continue
 		}
-		lib := runLib(prog, gen.Canon{}, false)
+		var pol gen.Policy = gen.Canon{}
+		if i%2 == 1 {
+			// the value of an expression does not depend on how it is laid out
+			r := gen.Rng(p.seed, "c05pol", i)
+			pol = &randPolicy{r: r, quote: []byte{'\'', '"'}[r.Intn(2)], comma: r.Intn(2) == 0}
+		}
+		lib := runLib(prog, pol, false)
 		src := gen.ExprSource(gen.FullParen(e))
-		compareRuns(&res, "c05:"+src, prog, lib, mod, true)
+		if !compareRuns(&res, "c05:"+src, prog, lib, mod, true) && i%2 == 1 {
+			res.Viols[len(res.Viols)-1].Msg += fmt.Sprintf("; spelled as %q", prog.sources(pol)["main"])
+		}
 		res.AddObs("exec_steps", lib.exSteps)
 		res.AddObs("callbacks_observed", int64(len(lib.calls)))
 		if mod.err != nil {
@@ -213,7 +221,7 @@ func (p *c05) Run(i int) (res fw.Result) {
 }
 
 func (p *c05) Rule() string {
-	return fmt.Sprintf("cases: exhaustive depth-1 table (%d binary operators x 28x28 operand forms, 3 unary operators, conditional) filtered by the reference model's agreement region, plus seeded typed random expression trees (depth<=4 quick, <=6 thorough) over literals, context variables carried by different Go numeric types, arrays, single-entry hashes, interpolation, attribute access and recording functions/filters/tests; every third random tree is evaluated three times in one execution (in a loop that re-assigns n1, s1, pat and t), so that its nodes are re-evaluated under other values; every tree is spelled fully parenthesised, rendered through a recording core environment and compared with the reference evaluator on printed value, error-or-not and the exact callback log (name, argument values in order, piped value first, template name). Trees the model refuses (outside the agreement region: zero divisors, non-dyadic quotients, |result|>=10^6, mixed-type equality, negative numbers or \"0\" in boolean context, string haystacks) are regenerated. Non-trivial = depth>=2 or >=1 callback; distinct = expression shape with operators, variable names and literal classes.", len(c05BinOps))
+	return fmt.Sprintf("cases: exhaustive depth-1 table (%d binary operators x 28x28 operand forms, 3 unary operators, conditional) filtered by the reference model's agreement region, plus seeded typed random expression trees (depth<=4 quick, <=6 thorough) over literals, context variables carried by different Go numeric types, arrays, single-entry hashes, interpolation, attribute access and recording functions/filters/tests; every third random tree is evaluated three times in one execution (in a loop that re-assigns n1, s1, pat and t), so that its nodes are re-evaluated under other values; every tree is spelled fully parenthesised (odd cases with random white space, quotes and trailing commas between the tokens), rendered through a recording core environment and compared with the reference evaluator on printed value, error-or-not and the exact callback log (name, argument values in order, piped value first, template name). Trees the model refuses (outside the agreement region: zero divisors, non-dyadic quotients, |result|>=10^6, mixed-type equality, negative numbers or \"0\" in boolean context, string haystacks) are regenerated. Non-trivial = depth>=2 or >=1 callback; distinct = expression shape with operators, variable names and literal classes.", len(c05BinOps))
 }
 
 func (p *c05) Assumptions() []string {
